@@ -82,12 +82,16 @@ def _read_registry():
                 elif isinstance(st, ast.AnnAssign) and isinstance(st.target, ast.Name) and st.value is not None:
                     tgt, val = st.target.id, st.value
                 if tgt == "aliases":
-                    if isinstance(val, ast.Set):
-                        aliases = {e.value for e in val.elts}
-                    elif isinstance(val, ast.Call) and getattr(val.func, "id", "") == "set" and not val.args:
+                    if isinstance(val, ast.Call) and getattr(val.func, "id", "") in ("set", "frozenset", "tuple", "list") and not val.args:
                         aliases = set()
                     else:
-                        raise RuntimeError(f"{mod}.{node.name}: cannot read aliases literal")
+                        try:
+                            lit = ast.literal_eval(val)
+                        except (ValueError, SyntaxError):
+                            raise RuntimeError(f"{mod}.{node.name}: cannot read aliases literal")
+                        # the aliases of a class are the ELEMENTS of its `aliases` collection (a bare string has its
+                        # characters as elements; `x in "hamming"` would be a substring test, which is not membership)
+                        aliases = set(lit) if not isinstance(lit, str) else set(lit)
                 if isinstance(st, ast.FunctionDef) and st.name == "__init__":
                     a = st.args
                     pos = [x.arg for x in a.posonlyargs + a.args][1:]
@@ -296,7 +300,8 @@ def _run_registry(col):
     families = [k for k in classes if k != root]
     shared = collections.Counter(a for k in classes for a in eff_aliases(k))
     for fam in families:
-        for alias in list(all_aliases) + list(UNKNOWN):
+        derived = sorted({d for a in all_aliases if isinstance(a, str) for d in (a[:-1], a[1:], a[:1], a + a, a.upper()) if d not in all_aliases})
+        for alias in list(all_aliases) + list(UNKNOWN) + derived:
             case = {"part": "registry", "family": list(fam), "alias": alias}
             fails, nontrivial = _check_registry_case(case, ctx)
             pairs += 1
@@ -306,7 +311,7 @@ def _run_registry(col):
                 col.fail(clause, case, msg)
     abstract = [k for k in families if root in table[k]["bases"]]
     col.note(
-        f"registry: EXHAUSTIVE over {len(families)} classes ({len(abstract)} abstract families) x ({len(all_aliases)} registered aliases + {len(UNKNOWN)} unknown strings) = {pairs} from_alias calls, "
+        f"registry: EXHAUSTIVE over {len(families)} classes ({len(abstract)} abstract families) x ({len(all_aliases)} registered aliases + {len(UNKNOWN)} unknown strings + prefixes/suffixes/first letters/doublings/upper-case of every alias) = {pairs} from_alias calls, "
         f"{resolved} of which must resolve; aliases carried by more than one class: {sorted(a for a, c in shared.items() if c > 1)}"
     )
     return ctx
